@@ -501,7 +501,21 @@ func instrIndex(in ssa.Instruction) int {
 // CallersOf lists module functions that (may) call any of the targets: CHA edges plus static
 // references that let a function value escape (address taken).
 func (r *Run) callersOf(targets map[*ssa.Function]bool, g *callgraph.Graph) map[string][]*callgraph.Edge {
-	return r.callersOfRec(targets, g, map[*ssa.Function]bool{})
+	out := r.callersOfRec(targets, g, map[*ssa.Function]bool{})
+	for k := range out {
+		es := out[k]
+		sort.SliceStable(es, func(i, j int) bool {
+			var pi, pj int
+			if es[i].Site != nil {
+				pi = int(es[i].Site.Pos())
+			}
+			if es[j].Site != nil {
+				pj = int(es[j].Site.Pos())
+			}
+			return pi < pj
+		})
+	}
+	return out
 }
 
 func (r *Run) callersOfRec(targets map[*ssa.Function]bool, g *callgraph.Graph, visited map[*ssa.Function]bool) map[string][]*callgraph.Edge {
